@@ -68,16 +68,46 @@ fn transform_chain(case: &Value) -> Value {
     leaf.elems.push(mk(raw::Shape::Rect(raw::Rect { p0: p2(&leaf_pts_rect)[0], p1: p2(&leaf_pts_rect)[1] })));
     leaf.elems.push(mk(raw::Shape::Polygon(raw::Polygon { points: p2(&leaf_poly) })));
     leaf.elems.push(mk(raw::Shape::Path(raw::Path { points: p2(&leaf_path), width: 2 })));
+    // siblings: at every level a decoy instance of a marker cell before and after the chain instance (specs/geom/MC_D4.tla)
+    let lk2 = layers.add(raw::Layer::from_num(2));
+    let marker_pts = [(0i64, 0i64), (2, 0), (0, 1)];
+    let mut marker = raw::Layout::default();
+    marker.name = "marker".into();
+    marker.elems.push(raw::Element { net: None, layer: lk2, purpose: raw::LayerPurpose::Drawing, inner: raw::Shape::Polygon(raw::Polygon { points: p2(&marker_pts) }) });
+    let marker = Ptr::new(raw::Cell::from(marker));
+    let decoy = |key: &str, nm: &str| -> raw::Instance {
+        let d = &case[key];
+        raw::Instance { inst_name: nm.into(), cell: marker.clone(), loc: Point::new(d["loc"][0].as_i64().unwrap() as isize, d["loc"][1].as_i64().unwrap() as isize),
+                        reflect_vert: d["r"].as_bool().unwrap(), angle: Some(d["a"].as_i64().unwrap() as f64) }
+    };
+    let with_decoys = case.get("dec1").is_some();
     let mut cur: Ptr<raw::Cell> = Ptr::new(raw::Cell::from(leaf));
     for (i, pl) in chain.iter().enumerate().rev() {
         let mut lay = raw::Layout::default();
         lay.name = format!("lvl{}", i);
+        if with_decoys { lay.insts.push(decoy("d1", "before")); }
         lay.insts.push(raw::Instance { inst_name: "i".into(), cell: cur.clone(), loc: pl.loc, reflect_vert: pl.r, angle: angle_opt(pl.a, false) });
+        if with_decoys { lay.insts.push(decoy("d2", "after")); }
         cur = Ptr::new(raw::Cell::from(lay));
     }
     let top = cur.read().unwrap();
     match top.layout.as_ref().unwrap().flatten() {
-        Ok(elems) => {
+        Ok(all) => {
+            let (markers, elems): (Vec<_>, Vec<_>) = all.iter().partition(|e| e.layer == lk2);
+            if with_decoys {
+                let mut want: Vec<Vec<(i64, i64)>> = Vec::new();
+                for key in ["dec1", "dec2"] { for mp in geta(case, key) {
+                    let mm: Vec<Vec<i64>> = geta(mp, "m").iter().map(ivec).collect();
+                    let tt = ivec(&mp["t"]);
+                    want.push(marker_pts.iter().map(|p| (mm[0][0] * p.0 + mm[0][1] * p.1 + tt[0], mm[1][0] * p.0 + mm[1][1] * p.1 + tt[1])).collect());
+                }}
+                let mut got: Vec<Vec<(i64, i64)>> = markers.iter().map(|e| match &e.inner {
+                    raw::Shape::Polygon(p) => p.points.iter().map(|q| (q.x as i64, q.y as i64)).collect(), _ => vec![] }).collect();
+                want.sort(); got.sort();
+                if got != want {
+                    mism.push(json!({"via":"flatten-siblings","got":format!("{:?}", got),"want":format!("{:?}", want)}));
+                }
+            }
             if elems.len() != 3 { mism.push(json!({"via":"flatten","count":elems.len()})); }
             for e in elems.iter() {
                 let (got, src): (Vec<(i64, i64)>, &[(i64, i64)]) = match &e.inner {
